@@ -19,9 +19,12 @@ REQUIRED = ['Ems.C19.collection_pairs', 'Ems.C19.collection_at', 'Ems.C19.collec
             'Ems.C19.clim_none_iff', 'Ems.C19.overrides_spec', 'Ems.C19.quiver_spec']
 RULE = ('datasets of every convention with and without holes / invalid cells, tagged face variables with missing values: '
         'make_poly_collection by name and as (possibly transposed) DataArray, with no data, with leftover dimensions, with '
-        'array= / clim= / transform= overrides; make_quiver with u, v by name or arrays (and without values). Agg backend. '
+        'array= / clim= / transform= overrides, with styling keywords (edgecolor / edgecolors / cmap / linewidth / alpha ...: what '
+        'the documentation and plot_on_figure pass), and through plot_on_figure itself; values of every magnitude (small integers, '
+        'a narrow range on a large offset, tiny, huge, negated, one single value); make_quiver with u, v by name or arrays '
+        '(and without values). Agg backend. '
         'Compared: path vertices, get_array, get_clim of the real PolyCollection; X, Y, U, V of the real Quiver. '
-        'Non-trivial: dataset with a cell without polygon before a cell with one, or an override; distinct by (recipe, call).')
+        'Non-trivial: dataset with a cell without polygon before a cell with one, or an override / styling keyword, or the collection taken off a figure; distinct by (recipe, call).')
 TRUSTED = ['matplotlib PolyCollection / Quiver store what they are given (rendering is matplotlib\'s)']
 ASSUMPTIONS = ['UGRID face centres without stored face coordinates are GEOS centroids: the quiver positions are then compared only for the cells whose centre is stored']
 
@@ -31,11 +34,70 @@ def vals_str(a) -> str:
     return ','.join('-' if np.isnan(v) else util.rat_str(Fraction(float(v))) for v in a) or '(empty)'
 
 
+def rat(v) -> str:
+    return '-' if np.isnan(v) else util.rat_str(Fraction(float(v)))
+
+
+# styling keywords a caller hands to make_poly_collection (they go to the PolyCollection constructor): none of them
+# may change which cells get a patch, nor the values. The first is what the documentation and plot_on_figure use.
+STYLES = [
+    {'cmap': 'jet', 'edgecolor': 'face'},
+    {'edgecolor': 'face'},
+    {'edgecolors': 'face'},
+    {'edgecolor': 'black', 'linewidth': 0.5},
+    {'facecolor': 'none', 'edgecolor': 'grey'},
+    {'cmap': 'viridis', 'alpha': 0.5},
+    {'linewidths': 0, 'zorder': 2},
+    {'cmap': 'jet', 'edgecolor': 'face', 'linewidth': 0.25, 'antialiased': False},
+]
+
+
+def random_value_map(rng):
+    """how the tagged values `base + n` of one variable are rescaled: v -> off + sign * v * 2**exp (exact in float64),
+    or one single value everywhere. None = the small integers themselves."""
+    x = rng.random()
+    if x < 0.35:
+        return None
+    if x < 0.55:       # a narrow range on a large offset (pressure in Pa, salinity ...)
+        return {'off': 2 ** rng.choice([10, 16, 20, 24]), 'exp': rng.choice([-4, -8, -12]), 'neg': False}
+    if x < 0.70:       # everything tiny (a tracer concentration)
+        return {'off': 0, 'exp': rng.choice([-30, -40, -50]), 'neg': rng.random() < 0.3}
+    if x < 0.80:       # everything huge
+        return {'off': 0, 'exp': rng.choice([20, 40]), 'neg': rng.random() < 0.3}
+    if x < 0.92:       # negative values, the order reversed
+        return {'off': rng.choice([0, 1020]), 'exp': 0, 'neg': True}
+    return {'const': True}
+
+
+def build(recipe):
+    """G.build, then the value maps of recipe['c19'] applied to the data variables (missing values stay missing)"""
+    built = G.build(recipe)
+    maps = (recipe.get('c19') or {}).get('values') or {}
+    ds = built.ds
+    for name, m in maps.items():
+        if m is None or name not in ds:
+            continue
+        da = ds[name]
+        v = np.asarray(da.values, dtype='f8')
+        if m.get('const'):
+            new = np.where(np.isnan(v), np.nan, float(built.vars[name].base))
+        else:
+            new = float(m['off']) + (-1.0 if m['neg'] else 1.0) * v * (2.0 ** m['exp'])
+        ds[name] = xr.DataArray(new, dims=da.dims, attrs=da.attrs)
+    built.ds = ds
+    return built
+
+
+def poly_collections(fig) -> list:
+    from matplotlib.collections import PolyCollection
+    return [a for ax in fig.axes for a in ax.collections if isinstance(a, PolyCollection)]
+
+
 def examine(ctx, recipe, items) -> None:
     from matplotlib.figure import Figure
-    rng = ctx.rng
-    built = G.build(recipe)
+    built = build(recipe)
     c = G.bind(built)
+    style = dict((recipe.get('c19') or {}).get('style') or STYLES[0])
     ds = built.ds
     raw = built.polys
     vbits = S.geos_valid_bits(raw)
@@ -46,12 +108,45 @@ def examine(ctx, recipe, items) -> None:
     gd = built.grids['face'][0]
     hole_before = any(q is None for q in kept[:-1])
 
-    def run_collection(label, data, model_vals, **kw):
+    def oracle(pc, label, name, flat, clim_given, single_value_excused=False):
+        """the property, stated on the real artist: one patch per cell with geometry, in linear order, with that
+        cell's outline and value; default colour limits = (min, max) of the plotted values"""
+        d = {**desc, 'var': name, 'call': label}
+        ctx.evaluated()
+        paths = [[(Fraction(float(x)), Fraction(float(y))) for x, y in p.vertices] for p in pc.get_paths()]
+        got = pc.get_array()
+        want = [(util.expected_ring(q), flat[n]) for n, q in enumerate(kept) if q is not None]
+        if got is None:
+            ctx.oracle_fail('collection-size', d, f'{label}: {len(paths)} patches and no values for {len(want)} cells with geometry')
+            return
+        arr = np.ma.filled(np.ma.asarray(got, dtype='f8'), np.nan).reshape(-1)
+        if len(paths) != len(want) or len(arr) != len(want):
+            ctx.oracle_fail('collection-size', d, f'{label}: {len(paths)} patches / {len(arr)} values for {len(want)} cells with geometry')
+            return
+        for k, ((ring, val), p) in enumerate(zip(want, paths)):
+            pr = p[:-1] if len(p) > 1 and p[0] == p[-1] else p
+            if pr != ring or not (val == arr[k] or (np.isnan(val) and np.isnan(arr[k]))):
+                ctx.oracle_fail('patch-value-not-of-its-cell', {**d, 'patch': k},
+                                f'{label}: patch {k}: outline {S.ring_str(pr)} value {arr[k]}; its cell has outline {S.ring_str(ring)} value {val}')
+                return
+        present = [v for _, v in want if not np.isnan(v)]
+        if present and not clim_given:
+            lo, hi = min(present), max(present)
+            # (a single plotted value under a colour bar: matplotlib's Colorbar widens the degenerate range itself)
+            if single_value_excused and lo == hi:
+                return
+            cl = pc.get_clim()
+            if cl is None or (cl[0], cl[1]) != (lo, hi):
+                ctx.oracle_fail('clim-not-plotted-range', d, f'{label}: colour limits {cl}, the plotted values span {(float(lo), float(hi))}')
+
+    def run_collection(label, data, model_vals, maker=None, **kw):
         arr = '1' if 'array' in kw else '0'
         clim = kw.get('clim')
         line = f"collection {rings} {model_vals} {arr} {'-' if clim is None else f'{clim[0]},{clim[1]}'}"
         try:
-            pc = c.make_poly_collection(data, **kw)
+            pc = maker() if maker is not None else c.make_poly_collection(data, **kw)
+            if pc is None:
+                raise LookupError(f'{label}: no polygon collection came back')
             paths = '|'.join(S.ring_str([(Fraction(float(x)), Fraction(float(y))) for x, y in p.vertices]) for p in pc.get_paths()) or '(none)'
             a = pc.get_array()
             cl = pc.get_clim()
@@ -68,48 +163,68 @@ def examine(ctx, recipe, items) -> None:
             pc, out = None, 'TypeError'
         except ValueError:
             pc, out = None, 'ValueError'
+        except LookupError:
+            pc, out = None, 'NoCollection'
         items.append((line, out, {**desc, 'op': line, 'call': label}))
-        if hole_before or kw:
+        if hole_before or kw or maker is not None:
             ctx.nontrivial((str(recipe), label))
         ctx.count(f'collection:{label}')
         return pc
 
+    def on_figure(da):
+        """the collection `plot_on_figure` puts on the figure for a scalar"""
+        def make():
+            fig = Figure()
+            c.plot_on_figure(fig, scalar=da, coast=False, gridlines=False)
+            pcs = poly_collections(fig)
+            if len(pcs) != 1:
+                ctx.oracle_fail('plot-on-figure-collections', {**desc, 'var': da.name}, f'plot_on_figure: {len(pcs)} polygon collections on the figure')
+                return None
+            return pcs[0]
+        return make
+
     # no data: outlines only
     run_collection('no-data', None, 'none')
+    run_collection('no-data-styled', None, 'none', **style)
     for name in face_vars[:2]:
         da = ds[name]
         extra = [d for d in da.dims if d not in gd]
         if extra:
             run_collection('extra-dims', name, 'extra')
+            run_collection('extra-dims-styled', name, 'extra', **style)
             da = da.isel({d: 0 for d in extra})
         flat = np.asarray(da.transpose(*gd).values, dtype='f8').reshape(-1)
-        mv = ','.join('-' if np.isnan(v) else str(int(v)) for v in flat)
+        mv = ','.join(rat(v) for v in flat)
+        plotted = [v for n, v in enumerate(flat) if kept[n] is not None and not np.isnan(v)]
+        single = len(set(plotted)) == 1
+        # no plotted value at all, or one: the colour bar of plot_on_figure has no range to show and makes one up
+        degenerate = any(q is not None for q in kept) and len(set(plotted)) <= 1
+        ctx.count('values:' + ('none-plotted' if not plotted else 'single' if single else
+                               'narrow' if max(plotted) - min(plotted) <= max(1e-6, 1e-4 * max(abs(min(plotted)), abs(max(plotted)))) else 'spread'))
+        if any(kept[n] is not None and np.isnan(v) for n, v in enumerate(flat)):
+            ctx.count('values:missing-in-a-cell-with-geometry')
+        calls = []
         if extra:
-            pc = run_collection('array-arg', da, mv)
+            calls.append(('array-arg', run_collection('array-arg', da, mv), False, False))
         else:
-            pc = run_collection('by-name', name, mv)
-            run_collection('transposed-array', da.transpose(*gd[::-1]) if len(gd) == 2 else da, mv)
-            run_collection('with-clim', name, mv, clim=(0, 1))
+            calls.append(('by-name', run_collection('by-name', name, mv), False, False))
+            calls.append(('transposed-array', run_collection('transposed-array', da.transpose(*gd[::-1]) if len(gd) == 2 else da, mv), False, False))
+            calls.append(('with-clim', run_collection('with-clim', name, mv, clim=(0, 1)), True, False))
             run_collection('with-array', name, mv, array=np.zeros(3))
-        # ---- direct oracle on the default call ------------------------------------------------
-        if pc is not None:
-            paths = [[(Fraction(float(x)), Fraction(float(y))) for x, y in p.vertices] for p in pc.get_paths()]
-            arr = np.ma.filled(np.ma.asarray(pc.get_array(), dtype='f8'), np.nan)
-            want = [(util.expected_ring(q), flat[n]) for n, q in enumerate(kept) if q is not None]
-            if len(paths) != len(want) or len(arr) != len(want):
-                ctx.oracle_fail('collection-size', {**desc, 'var': name}, f'{len(paths)} patches / {len(arr)} values for {len(want)} cells with geometry')
-            else:
-                for k, ((ring, val), p) in enumerate(zip(want, paths)):
-                    pr = p[:-1] if len(p) > 1 and p[0] == p[-1] else p
-                    if pr != ring or not (val == arr[k] or (np.isnan(val) and np.isnan(arr[k]))):
-                        ctx.oracle_fail('patch-value-not-of-its-cell', {**desc, 'var': name, 'patch': k},
-                                        f'patch {k}: outline {S.ring_str(pr)} value {arr[k]}; its cell has outline {S.ring_str(ring)} value {val}')
-                        break
-                present = [v for _, v in want if not np.isnan(v)]
-                if present:
-                    cl = pc.get_clim()
-                    if (cl[0], cl[1]) != (min(present), max(present)):
-                        ctx.oracle_fail('clim-not-plotted-range', {**desc, 'var': name}, f'clim {cl}, plotted values span {(min(present), max(present))}')
+        calls.append(('styled', run_collection('styled', da, mv, **style), False, False))
+        calls.append(('styled-with-clim', run_collection('styled-with-clim', da, mv, clim=(0, 1), **style), True, False))
+        # through plot_on_figure (which styles the collection itself and hangs a colour bar on it); without two
+        # different plotted values matplotlib's colour bar widens the limits itself, so they are then left out of the comparison
+        if degenerate:
+            fpc = on_figure(da)()
+            ctx.count('collection:plot-on-figure')
+        else:
+            fpc = run_collection('plot-on-figure', da, mv, maker=on_figure(da))
+        calls.append(('plot-on-figure', fpc, False, True))
+        # ---- direct oracle on every collection that carries this variable ------------------------------
+        for label, pc, clim_given, excused in calls:
+            if pc is not None:
+                oracle(pc, label, name, flat, clim_given, excused)
     # ---- quiver ---------------------------------------------------------------------------------------
     if len(face_vars) >= 1:
         plain = [n for n in face_vars if len(built.vars[n].dims) == len(gd)]
@@ -164,8 +279,7 @@ def examine(ctx, recipe, items) -> None:
                            for n in range(len(X)))
             mc = ';'.join('?,?' if (built.conv == 'ugrid' and cents[n] is None) else
                           ('-,-' if cents[n] is None else f'{util.rat_str(cents[n][0])},{util.rat_str(cents[n][1])}') for n in range(len(raw)))
-            line = (f"quiver {mc} {','.join('-' if np.isnan(a) else str(int(a)) for a in uf)} "
-                    f"{','.join('-' if np.isnan(a) else str(int(a)) for a in vf)}")
+            line = f"quiver {mc} {','.join(rat(a) for a in uf)} {','.join(rat(a) for a in vf)}"
             items.append((line, out, {**desc, 'op': line, 'call': 'quiver'}))
             ctx.nontrivial((str(recipe), 'quiver'))
             if len(X) != len(raw):
@@ -186,7 +300,7 @@ def history_case(ctx, recipe) -> None:
     import xarray as xr
     from matplotlib.collections import PolyCollection
     from matplotlib.figure import Figure
-    built = G.build(recipe)
+    built = build(recipe)
     ds = built.ds.assign_coords(time=xr.DataArray(pd.date_range('2001-01-01', periods=built.ds.sizes['time']).values, dims=['time']))
     built.ds = ds
     c = G.bind(built)
@@ -247,6 +361,7 @@ def make_recipe(ctx, k):
     recipe = dict(recipe)
     recipe['vars'] = vars_
     recipe['sizes_extra'] = {'time': 2}
+    recipe['c19'] = {'style': dict(rng.choice(STYLES)), 'values': {v['name']: random_value_map(rng) for v in vars_}}
     return recipe
 
 
